@@ -1,5 +1,6 @@
 SPECIFICATION Spec
 CONSTANTS Mode = "C35V"
           Thorough = FALSE
+          Salt = 0
 INVARIANTS Link
 CHECK_DEADLOCK FALSE
